@@ -1,12 +1,12 @@
 (** C13 — selective expansion expands exactly the selected templates and
     honours the hooks (model: Model/Expand.v with selection, switches and
     hooks, tied to Wtp.expand by per-run output and hook-log correspondence).
-    PARTIAL: the selection rule is proved as one formula; that an unselected
-    call is re-emitted with its (recursively treated) arguments and that the
-    text comes back unchanged when nothing is selected are decided per run by
-    the correspondence and the reference semantics, not by a theorem yet. *)
+    PARTIAL: the selection rule is proved as one formula, and the identity
+    clause is proved for pages of text, links and calls that are left alone;
+    the hook clauses and the treatment of parser functions are decided per run
+    by the correspondence and the reference semantics. *)
 From Coq Require Import List NArith Bool.
-From WTP Require Import Base.Str Model.Expand Proofs.ExpandProofs.
+From WTP Require Import Base.Str Model.Expand Proofs.ExpandProofs Proofs.IdentityProofs.
 Import ListNotations.
 
 (* check_template_need_expand's four cases are the single rule: stored, not
@@ -31,3 +31,27 @@ Theorem c13_excluded_never_selected :
     not_expand_names sel = Some l -> in_names name l = true -> need_expand lib sel name = false.
 Proof. exact need_expand_excluded. Qed.
 Print Assumptions c13_excluded_never_selected.
+
+
+(* With pre_expand (nothing is expanded by default) a page made of text, links and calls none of which is
+   selected - names that are plain text, hold no colon, are not parser functions and for which
+   check_template_need_expand says no - comes back exactly as written: every call is re-emitted as a call with
+   the same name and (recursively untouched) arguments.  [render] is the text as written; it is also what
+   finalisation prints for the untouched page. *)
+Theorem c13_nothing_selected_identity :
+  forall pfnames lib opts nwmap e,
+    inert pfnames lib opts e = true -> (ldepth e < 99)%nat ->
+    exists f0, forall f, (f0 <= f)%nat ->
+      expand_page pfnames nwmap lib opts true f e = Some (render e) /\
+      finalize f nwmap e = render e.
+Proof. exact identity. Qed.
+Print Assumptions c13_nothing_selected_identity.
+
+(* non-vacuity: "a {{t|x [[l|{{u}}]]}} b" with a stored but unselected template t *)
+Example c13_identity_example :
+  let lib := [mktpl [84] (chars [66]) false] in
+  let opts := mkopts true (mksel None None) true [] [] in
+  let page := [Ch 97; Ch 32; T [[Ch 116]; [Ch 120; Ch 32; L [[Ch 108]; [T [[Ch 117]]]]]]; Ch 32; Ch 98] in
+  inert [[35;105;102]] lib opts page = true /\
+  expand_page [[35;105;102]] [] lib opts true 50 page = Some (render page).
+Proof. vm_compute. split; reflexivity. Qed.
